@@ -174,7 +174,7 @@ func cmdCheck(args []string) int {
 	var reports []obligationReport
 	var violations []*aggGoal
 	var broken []string
-	var fnsUnder, inlined, usedExt, trustedUsed, uncontracted, notes, depFns []string
+	var fnsUnder, inlined, usedExt, trustedUsed, uncontracted, notes, depFns, axiomsUsed []string
 	depSet := map[string]bool{}
 	seenUsed := map[string]bool{}
 	totalObl, totalOK := 0, 0
@@ -247,6 +247,9 @@ func cmdCheck(args []string) int {
 				}
 			}
 			if !serves {
+				continue
+			}
+			if only := os.Getenv("GVC_ONLY"); only != "" && !strings.Contains(ct.Func, only) {
 				continue
 			}
 			selected = append(selected, ct)
@@ -325,6 +328,7 @@ func cmdCheck(args []string) int {
 				uncontracted = append(uncontracted, n)
 			}
 			notes = append(notes, fr.Notes...)
+			axiomsUsed = append(axiomsUsed, fr.Axioms...)
 			for _, n := range fr.Used {
 				if seenUsed[n] {
 					continue
@@ -545,6 +549,7 @@ func cmdCheck(args []string) int {
 		"samples":                  samples,
 		"functions_under_contract": fnsUnder,
 		"callee_contracts_included": dedup(depFns),
+		"axiom_and_lemma_instances_used": dedup(axiomsUsed),
 		"inlined_functions":        inlined,
 		"ssa_instructions":         totalInstr,
 		"solver_time_s":            round3(solverTime),
